@@ -150,6 +150,15 @@ def generate(req):
         # non-text values in a TEXT pk, and NULL pks (legal in rowid tables)
         c.executemany("insert or ignore into t_pk values(?,?,?)", [(None, None, 1), (None, None, 2), (b"blobkey", None, 3)])
 
+    if "pk" in feats:
+        # column-level constraints on collated columns
+        c.execute("create table t_colpk(k TEXT COLLATE NOCASE PRIMARY KEY, u TEXT UNIQUE COLLATE RTRIM, w TEXT COLLATE NOCASE UNIQUE, v)")
+        m = max(4, n // 4)
+        c.executemany("insert or ignore into t_colpk values(?,?,?,?)",
+                      [(g.text_value(), g.text_value() if r.random() > 0.1 else None, g.text_value() if r.random() > 0.1 else None, g.any_value()) for i in range(m)])
+        c.execute("create table t_uqpk(a TEXT UNIQUE PRIMARY KEY DESC, b INTEGER, UNIQUE(b, a), UNIQUE(a COLLATE binary))")
+        c.executemany("insert or ignore into t_uqpk values(?,?)", [(g.text_value(), r.randint(0, 9)) for i in range(m)])
+
     if "cpk" in feats:
         c.execute("create table t_cpk(a INTEGER, b TEXT COLLATE NOCASE, c, PRIMARY KEY(a, b DESC))")
         c.execute("create index ix_cpk_c on t_cpk(c, a)")
@@ -173,6 +182,8 @@ def generate(req):
         c.executemany("insert or ignore into t_wr2 values(?,?,?)",
                       [(g.text_value() + (str(r.randint(0, m)) if r.random() < 0.7 else ""), r.randint(0, 9) if r.random() > 0.1 else None,
                         g.any_value()) for i in range(m)])
+        c.execute("create table t_wr4(i INTEGER PRIMARY KEY, s TEXT COLLATE NOCASE UNIQUE, t, UNIQUE(t, i)) WITHOUT ROWID")
+        c.executemany("insert or ignore into t_wr4 values(?,?,?)", [(r.randint(-50, 50), g.text_value(), g.any_value()) for i in range(m)])
         c.execute("create table t_wr3(x INTEGER, y INTEGER, z TEXT, w, PRIMARY KEY(z, x, y)) WITHOUT ROWID")
         c.execute("create index ix_wr3_wy on t_wr3(w, y)")
         c.executemany("insert or ignore into t_wr3 values(?,?,?,?)",
